@@ -599,6 +599,15 @@ def callable_wrapper_obligations(rep, tier, unit='ground:argument-wrappers'):
     their arguments, so one execution with fresh sentinels decides the data flow)"""
     from pyvc.rtver import native_namespace
     for ctx in (False, True):
+        try:
+            _wrapper_cases(rep, unit, ctx)
+        except Exception as e:
+            rep.add(unit, f'wrappers can be executed on sentinels [ctx={int(ctx)}]', 'ground', False, detail={'raised': repr(e)})
+
+
+def _wrapper_cases(rep, unit, ctx):
+    from pyvc.rtver import native_namespace
+    if True:
         ns = native_namespace(ctx)
         S = [object() for _ in range(8)]
         log = []
@@ -825,3 +834,428 @@ def derived_start_obligations(rep, tier, unit='wiring:inheritance-start'):
             requests_in(fa) == ['_ctx._try_Sp'], detail={'requests': requests_in(fa)})
     for m in [k for k in sys.modules if k.startswith('vds_')]:
         sys.modules.pop(m, None)
+
+
+# ---------------------------------------------------------------------------------------------- C17 nesting depth
+def _spill_kinds():
+    from contracts.call import _ref, _local
+    return {
+        'pure (stubs only)': lambda: X.Seq(Stub(1, False, True), Stub(2, True, False)),
+        'rule reference': lambda: X.Seq(_ref('A'), Stub(1, False, False)),
+        'literal that skips ignored text': lambda: _skipping(X.Seq(X.Str('a'), Stub(1, False, False))),
+        'template call': lambda: X.Seq(X.Call(_ref('T'), [Stub(1, False, False)]), Stub(2, False, False)),
+        'uses a parameter': lambda: X.Seq(_local('p'), Stub(1, False, False)),
+        'uses two names': lambda: X.Seq(_local('q'), _local('p')),
+        'always succeeds': lambda: X.List(Stub(1, False, True)),
+        'single literal': lambda: X.Str('abc'),
+    }
+
+
+def _skipping(e):
+    X.visit(e, lambda n: setattr(n, 'skip_ignored', True) if hasattr(n, 'skip_ignored') else None)
+    return e
+
+
+def spill_obligations(rep, tier, unit='wiring:spill'):
+    """with the block budget exhausted the real Expression.compile emits, in place of the fragment, ONE request to the driver for a
+    helper whose body is that fragment; by the driver contract the registers then hold the fragment's outcome at the entry position"""
+    for kind, mk in _spill_kinds().items():
+        for ctx in (False, True):
+            node = mk()
+            src = frag.emit_spilled(node, ctx)
+            tree = ast.parse(src)
+            tag = f'[{kind},ctx={int(ctx)}]'
+            defs = [n for n in tree.body if isinstance(n, ast.FunctionDef) and n.name == f'_parse_function_{node.program_id}']
+            rest = [n for n in tree.body if not isinstance(n, ast.FunctionDef)]
+            if len(defs) != 1:
+                rep.add(unit, f'one helper for the spilled expression {tag}', 'case_complete', False, detail={'src': src})
+                continue
+            fn = defs[0]
+            lead = (['_ctx'] if ctx else []) + ['_text', '_pos']
+            params = astutil.params_of(fn)
+            captured = params[len(lead):]
+            # call site: [arg = _ParseFunction(helper, (captured..), ())]; (_status, _result, _pos) = yield (3, helper|arg, _pos)
+            last = rest[-1] if rest else None
+            ok_req = isinstance(last, ast.Assign) and ast.unparse(last.targets[0]) == '(_status, _result, _pos)' and isinstance(last.value, ast.Yield) \
+                and isinstance(last.value.value, ast.Tuple) and ast.unparse(last.value.value.elts[0]) == '3' and ast.unparse(last.value.value.elts[2]) == '_pos'
+            callee = ast.unparse(last.value.value.elts[1]) if ok_req else None
+            if captured:
+                binds = [s for s in rest[:-1] if isinstance(s, ast.Assign) and ast.unparse(s.targets[0]) == callee]
+                ok_callee = len(binds) == 1 and isinstance(binds[0].value, ast.Call) and ast.unparse(binds[0].value.func) == '_ParseFunction' \
+                    and ast.unparse(binds[0].value.args[0]) == fn.name and [ast.unparse(x) for x in binds[0].value.args[1].elts] == captured \
+                    and ast.unparse(binds[0].value.args[2]) == '()'
+            else:
+                ok_callee = callee == fn.name and len(rest) == 1
+            rep.add(unit, f'the fragment is replaced by one driver request for its helper at the entry position {tag}', 'case_complete',
+                    bool(ok_req and ok_callee and params[:len(lead)] == lead), detail={'src': src})
+            rep.add(unit, f'a helper that contains requests is never called directly {tag}', 'case_complete',
+                    not any(isinstance(n, ast.Call) and ast.unparse(n.func) == fn.name for n in ast.walk(tree)), detail={'src': src})
+            free = unexpected_free(fn, ctx)
+            rep.add(unit, f'helper has no free name besides its parameters {tag}', 'case_complete', not free, detail={'free': free})
+            want = [w_ for w_ in ast.parse(frag.emit(mk() if kind != 'literal that skips ignored text' else _skipping(mk()), ctx, precompile=False)).body
+                    if not isinstance(w_, ast.FunctionDef)]        # helpers of nested arguments live at module level in both emissions
+            body = [s for s in fn.body]
+            same = len(body) == len(want) + 1 and all(_same_modulo_ids(a, b) for a, b in zip(body, want)) \
+                and ast.unparse(body[-1]) == 'yield (_status, _result, _pos)'
+            rep.add(unit, f'helper body = the inline fragment + `yield (_status, _result, _pos)` {tag}', 'case_complete', same, detail={'src': src})
+
+
+def block_accounting_obligations(rep, tier, unit='wiring:block-accounting'):
+    """the deepest compound-statement nesting a fragment opens by itself (children abstract: stubs open none) is at most its declared
+    num_blocks; with CodeBuilder.has_available_blocks this bounds the nesting of every generated function by max_num_blocks (20)"""
+    from contracts import core, lists, bind
+    import contracts.call as callc
+    seen = {}
+    for c in core.CORE + lists.LISTS + bind.BIND + callc.CALL:
+        for cfg in c.configs(tier):
+            try:
+                node, _ = c.build(cfg)
+            except Exception:
+                continue
+            src = frag.emit(node, bool(cfg.get('ctx')))
+            tree = ast.parse(src)
+            stmts = [s for s in tree.body if not isinstance(s, (ast.FunctionDef, ast.ClassDef))]
+            depth, loops = astutil.max_block_depth(stmts), astutil.max_loop_depth(stmts)
+            key = type(node).__name__
+            w = seen.setdefault(key, {'depth': 0, 'loops': 0, 'nb': node.num_blocks, 'cfg': None, 'excess': -99, 'loop_excess': -99})
+            if depth - node.num_blocks > w['excess']:
+                w.update(depth=depth, nb=node.num_blocks, cfg=c.label(cfg), excess=depth - node.num_blocks)
+            if loops - node.num_blocks > w['loop_excess']:
+                w.update(loops=loops, loop_excess=loops - node.num_blocks, loop_nb=node.num_blocks)
+    for key, w in sorted(seen.items()):
+        # CPython's static limit (20) counts loops / try / with: these must be covered by the declaration exactly
+        rep.add(unit, f'{key}: loops opened by the fragment itself ({w["loops"]}) <= declared num_blocks ({w.get("loop_nb", w["nb"])})', 'case_complete',
+                w['loop_excess'] <= 0, detail=w)
+        # `if` blocks only count towards indentation (limit 100): the declaration may under-count them by at most one level
+        rep.add(unit, f'{key}: all blocks opened by the fragment itself ({w["depth"]}) <= declared num_blocks ({w["nb"]}) + 1', 'case_complete',
+                w['excess'] <= 1, detail=w)
+    # operator tables (4 declared)
+    def row(assoc, ops):
+        return type('Row', (), {'associativity': assoc, 'operators': ops})()
+    t = X.OperatorTable.create(Stub(1, False, True), [row('prefix', [Stub(2, False, False)]), row('left', [Stub(3, False, True)]),
+                                                       row('postfix', [Stub(4, False, False)]), row('infix', [Stub(5, False, False)])])
+    src = frag.emit(t, False)
+    depth = astutil.max_block_depth(ast.parse(src).body)
+    # the operands / operators are Apply and Longest nodes with blocks of their own: subtract nothing, compare against the sum
+    rep.add(unit, f'OperatorTable: blocks opened ({depth}) <= declared num_blocks (4) + those of its Longest/Apply children (2 + 2)', 'case_complete', depth <= 8)
+
+
+def no_python_recursion_obligations(rep, tier, unit='syntactic:no-input-proportional-recursion'):
+    """the run-time functions reachable from parse() without entering user code form an acyclic call graph"""
+    from pyvc import runtime
+    src, tree, defs = runtime.runtime(False)
+    fns = {k: v for k, v in defs.items() if isinstance(v, ast.FunctionDef)}
+    graph = {}
+    for name, fn in fns.items():
+        calls = set()
+        for n in ast.walk(fn):
+            if isinstance(n, ast.Call):
+                f = ast.unparse(n.func)
+                if f in fns:
+                    calls.add(f)
+        graph[name] = calls
+    reach = set()
+    todo = ['parse', '_run']
+    while todo:
+        f = todo.pop()
+        if f in reach:
+            continue
+        reach.add(f)
+        todo.extend(graph.get(f, ()))
+    def cyclic(f, stack=()):
+        if f in stack:
+            return True
+        return any(cyclic(g, stack + (f,)) for g in graph.get(f, ()))
+    bad = sorted(f for f in reach if cyclic(f))
+    rep.add(unit, f'functions reachable from parse ({", ".join(sorted(reach))}) call each other acyclically', 'syntactic', not bad, detail={'cyclic': bad})
+
+
+# ---------------------------------------------------------------------------------------------- C11 module production
+C11_GRAMMARS = {
+    'plain': 'start = [A, B?] | C+\nA = "a"\nB = /b+/i\nC = 0x43 | "c"\nclass K {\n x: A\n let y: B\n}\nT(p) = [p, p]\nU = T(A) | T("q")',
+    'ignore-anon': 'ignore /[ \\t]+/\nignore Cm = /#[^\\n]*/\nstart = W+\nW = /[a-z]+/',
+    'python': '```\nimport math\n```\nstart = /[0-9]+/ |> `int` where `lambda n: n > math.pi`\nE = Atom between {\n left: "+"\n prefix: "-"\n}\nAtom = /[0-9]+/',
+    'tricky-docstring': 'start = "\\\\" | \'"""\' | "\\n" | /\\\\d+\\\\/ | """x"""\n# comment with \\ and """ inside',
+}
+
+
+def _free_globals(tree):
+    """names read at module level or inside functions that are not bound anywhere in the module (python LEGB, approximated exactly
+    enough for generated code: module-level stores / defs / classes / imports bind; function locals are per function)"""
+    bound = set()
+    for n in tree.body:
+        if isinstance(n, (ast.FunctionDef, ast.ClassDef)):
+            bound.add(n.name)
+        elif isinstance(n, (ast.Import, ast.ImportFrom)):
+            for a in n.names:
+                bound.add((a.asname or a.name).split('.')[0])
+        else:
+            for t in ast.walk(n):
+                if isinstance(t, ast.Name) and isinstance(t.ctx, ast.Store):
+                    bound.add(t.id)
+    free = set()
+
+    def scan_fn(fn, outer):
+        local = set(astutil.params_of(fn))
+        body = fn.body if isinstance(fn.body, list) else [fn.body]
+        for s in body:
+            for t in ast.walk(s):
+                if isinstance(t, ast.Name) and isinstance(t.ctx, ast.Store):
+                    local.add(t.id)
+                if isinstance(t, (ast.FunctionDef, ast.ClassDef)) and t is not fn:
+                    local.add(t.name)
+                if isinstance(t, ast.comprehension):
+                    for x in ast.walk(t.target):
+                        if isinstance(x, ast.Name):
+                            local.add(x.id)
+                if isinstance(t, ast.Lambda):
+                    local.update(astutil.params_of(t))
+                if isinstance(t, ast.FunctionDef) and t is not fn:
+                    local.update(astutil.params_of(t))
+        for s in body:
+            for t in ast.walk(s):
+                if isinstance(t, ast.Name) and isinstance(t.ctx, ast.Load) and t.id not in local and t.id not in outer:
+                    free.add(t.id)
+    for n in tree.body:
+        if isinstance(n, ast.FunctionDef):
+            scan_fn(n, bound)
+        elif isinstance(n, ast.ClassDef):
+            cls_local = {m.name for m in n.body if isinstance(m, ast.FunctionDef)} | {t.id for m in n.body for t in ast.walk(m) if isinstance(t, ast.Name) and isinstance(t.ctx, ast.Store) and not isinstance(m, ast.FunctionDef)}
+            for m in n.body:
+                if isinstance(m, ast.FunctionDef):
+                    scan_fn(m, bound)
+                else:
+                    for t in ast.walk(m):
+                        if isinstance(t, ast.Name) and isinstance(t.ctx, ast.Load) and t.id not in bound and t.id not in cls_local:
+                            free.add(t.id)
+        else:
+            for t in ast.walk(n):
+                if isinstance(t, ast.Name) and isinstance(t.ctx, ast.Load) and t.id not in bound:
+                    free.add(t.id)
+    return free - astutil.BUILTINS
+
+
+def emitted_module_obligations(rep, tier, unit='wiring:emitted-module'):
+    """the emitted source is self-contained python over the standard library; it means the same with and without `optimize=2`
+    (no assert, no __doc__ / __debug__ reads); the docstring literal evaluates back to the docstring"""
+    from pyvc import runtime
+    for gname, desc in C11_GRAMMARS.items():
+        for named in (False, True):
+            text = (f'grammar c11emit_{gname.replace("-", "_")}\n' if named else '') + desc
+            tag = f'[{gname},named={int(named)}]'
+            try:
+                src = runtime.generated_module_source(text)
+            except Exception as e:
+                rep.add(unit, f'source is generated {tag}', 'schematic', False, detail={'error': repr(e)})
+                continue
+            tree = ast.parse(src)
+            free = sorted(_free_globals(tree) - ({'math'} if gname == 'python' else set()))
+            rep.add(unit, f'every global name the module reads is defined by the module, imported from the standard library, or a builtin {tag}',
+                    'schematic', not free, detail={'free': free})
+            imports = sorted({(n.module if isinstance(n, ast.ImportFrom) else n.names[0].name).split('.')[0] for n in ast.walk(tree) if isinstance(n, (ast.Import, ast.ImportFrom))})
+            rep.add(unit, f'imports only the standard library {tag}', 'schematic', set(imports) <= {'collections', 're', 'math'}, detail={'imports': imports})
+            bad = [type(n).__name__ for n in ast.walk(tree) if isinstance(n, ast.Assert)] + \
+                  [ast.unparse(n) for n in ast.walk(tree) if (isinstance(n, ast.Attribute) and n.attr == '__doc__') or (isinstance(n, ast.Name) and n.id in ('__debug__', '__doc__'))]
+            rep.add(unit, f'no assert and no __doc__/__debug__ read: compile(optimize=2) and plain execution of the source agree {tag}', 'syntactic', not bad, detail={'found': bad})
+            doc = ast.get_docstring(tree, clean=False)
+            want = '# Grammar definition:\n' + text
+            rep.add(unit, f'the docstring literal evaluates back to the grammar description (extends recovers the parent from __doc__) {tag}', 'ground',
+                    doc is not None and doc.strip('\n') == want.strip('\n'), detail={'got': (doc or '')[:120], 'want': want[:120]})
+            # context population
+            if named:
+                impls = [n.name for n in tree.body if isinstance(n, ast.FunctionDef) and n.name.startswith('_try_')]
+                sets = {ast.unparse(s.targets[0]): ast.unparse(s.value) for s in tree.body if isinstance(s, ast.Assign) and ast.unparse(s.targets[0]).startswith('_ctx.')}
+                miss = [i for i in impls if sets.get(f'_ctx.{i}') != i]
+                rep.add(unit, f'the epilogue publishes every implementation of the module on its context {tag}', 'schematic', not miss, detail={'missing': miss})
+            else:
+                rep.add(unit, f'an unnamed module never mentions _ctx {tag}', 'syntactic', '_ctx' not in src)
+
+
+def recompile_obligations(rep, tier, unit='ground:recompilation'):
+    """two compilations of one description (and include_source on/off) give the same module text up to a consistent renaming of
+    _anonymous_<id> rule names"""
+    import re
+    from sourcer import Grammar
+    for gname, desc in C11_GRAMMARS.items():
+        a = Grammar(desc, include_source=True)._source_code
+        b = Grammar(desc, include_source=True)._source_code
+        norm = lambda s: re.sub(r'_anonymous_\d+', lambda m, seen={}: seen.setdefault(m.group(0), f'_anonymous_{len(seen)}'), s)
+        def canon(s):
+            seen = {}
+            return re.sub(r'_anonymous_\d+', lambda m: seen.setdefault(m.group(0), f'_anonymous_#{len(seen)}'), s)
+        rep.add(unit, f'same text modulo anonymous rule names [{gname}]', 'ground', canon(a) == canon(b))
+        m_off = Grammar(desc, include_source=False)
+        rep.add(unit, f'include_source only adds the _source_code attribute [{gname}]', 'ground',
+                not hasattr(m_off, '_source_code') and {k for k in vars(m_off) if not k.startswith('__')} == {k for k in vars(Grammar(desc, include_source=True)) if not k.startswith('__') and k != '_source_code'} or
+                {re.sub(r'\d+$', '', k) for k in vars(m_off) if not k.startswith('__')} == {re.sub(r'\d+$', '', k) for k in vars(Grammar(desc, include_source=True)) if not k.startswith('__') and k != '_source_code'})
+
+
+def generator_state_obligations(rep, tier, unit='syntactic:generator-is-stateless'):
+    """sourcer.grammar / translator / expressions keep no module-level state between compilations: no `global`, no store to a module or
+    class attribute outside __init__, no mutable module-level containers that functions write to"""
+    import os
+    from pyvc import paths
+    root = os.path.join(paths.REPO, 'sourcer')
+    files = [os.path.join(root, f) for f in ('grammar.py', 'translator.py')] + \
+            [os.path.join(root, 'expressions', f) for f in sorted(os.listdir(os.path.join(root, 'expressions'))) if f.endswith('.py')]
+    for path in files:
+        tree = ast.parse(open(path).read())
+        mod_names = {t.id for n in tree.body if isinstance(n, ast.Assign) for t in ast.walk(n) if isinstance(t, ast.Name) and isinstance(t.ctx, ast.Store)}
+        bad = []
+        for fn in [n for n in ast.walk(tree) if isinstance(n, ast.FunctionDef)]:
+            for n in ast.walk(fn):
+                if isinstance(n, ast.Global):
+                    bad.append(f'{fn.name}: global {",".join(n.names)}')
+                if isinstance(n, (ast.Attribute, ast.Subscript)) and isinstance(n.ctx, ast.Store):
+                    base = n.value
+                    while isinstance(base, (ast.Attribute, ast.Subscript)):
+                        base = base.value
+                    if isinstance(base, ast.Name) and base.id in mod_names and base.id not in astutil.params_of(fn):
+                        bad.append(f'{fn.name}: store into module-level {ast.unparse(n)}')
+                if isinstance(n, ast.Call) and isinstance(n.func, ast.Attribute) and n.func.attr in ('append', 'add', 'update', 'setdefault', 'extend', 'pop', 'clear') \
+                        and isinstance(n.func.value, ast.Name) and n.func.value.id in mod_names and n.func.value.id not in astutil.params_of(fn):
+                    local = {t.id for t in ast.walk(fn) if isinstance(t, ast.Name) and isinstance(t.ctx, ast.Store)}
+                    if n.func.value.id not in local:
+                        bad.append(f'{fn.name}: mutates module-level {n.func.value.id}')
+        allowed = [b for b in bad if 'sys.modules' in b]
+        bad = [b for b in bad if b not in allowed]
+        rep.add(unit, f'{os.path.relpath(path, paths.REPO)}: functions write no module-level state', 'syntactic', not bad, detail={'found': bad})
+    # Grammar(): include_source flows only into source_var
+    gsrc = open(os.path.join(root, 'grammar.py')).read()
+    uses = [ast.unparse(n) for n in ast.walk(ast.parse(gsrc)) if isinstance(n, ast.Name) and n.id == 'include_source' and isinstance(n.ctx, ast.Load)]
+    gtree = ast.parse(gsrc)
+    kw = [ast.unparse(k.value) for n in ast.walk(gtree) if isinstance(n, ast.Call) for k in n.keywords if 'include_source' in ast.unparse(k.value)]
+    rep.add(unit, 'Grammar(): include_source is read exactly once, to choose source_var', 'syntactic',
+            len(uses) == 1 and len(kw) == 1 and kw[0].startswith("'_source_code' if include_source"), detail={'uses': uses, 'kw': kw})
+
+
+# ---------------------------------------------------------------------------------------------- C20 namespaces
+C20_GRAMMAR = '''
+ignore U_Space = /[ ]+/
+ignore /#[^\\n]*/
+start = U_Doc
+class U_Doc {
+    U_head: U_Word
+    let U_n: U_Num
+    U_items: U_Item{U_n}
+    pass "."?
+    requires `U_head != ""`
+    U_tail: U_Expr / U_Pair(U_Word) / U_Tmpl(U_Word, U_k="x")
+}
+class U_Pair(U_p) {
+    U_l: U_p
+    U_r: U_p
+}
+U_Tmpl(U_a, U_k) = [U_a, U_k, U_a?] | (let U_v = U_a in [`U_v`, U_a*]) | U_a // "," | U_a /? ";"
+U_Word = /[a-z]+/ | "lit"i | 0x41 >> `1`
+U_Num = /[0-9]+/ |> `int`
+U_Item = Sep(U_Word, ",", discard_separators=False) | Expect(U_Word) >> ExpectNot("z") >> Skip(" ") >> Longest("a", "ab") << Backtrack(0)
+       | U_Word where `lambda U_x: len(U_x) > 1` | Fail("no") | `len` <| U_Word | U_Word+ | [U_Word, U_Num]{2,3}
+U_Expr = U_Num between {
+    prefix: "-"
+    left: "*", "/"
+    right: "^"
+    infix: "=="
+    postfix: "!"
+    mixfix: "(" >> U_Expr << ")"
+}
+'''.replace(' / ', ' | ')
+
+DOCUMENTED_API = {'parse', 'visit', 'traverse', 'transform', 'Infix', 'Prefix', 'Postfix', 'ParsedObject', 'ParsingRule', 'InputError', 'ParseError',
+                  'PartialParseError'}
+
+
+def namespace_obligations(rep, tier, unit='wiring:namespaces'):
+    """user identifiers (here: everything spelled U_...) and generated identifiers live in disjoint name spaces: one obligation per
+    generated name.  Names that violate it on the unchanged tree are listed one by one in known_findings.json; a NEW one is a violation."""
+    import re
+    from pyvc import runtime
+    for named in (False, True):
+        src = runtime.generated_module_source(('grammar c20names\n' if named else '') + C20_GRAMMAR)
+        tree = ast.parse(src)
+        tag = f'[named={int(named)}]'
+        # 1. function scope of rule / class / helper functions: every local the generator introduces must start with an underscore
+        temps = {}
+        for fn in [n for n in ast.walk(tree) if isinstance(n, ast.FunctionDef) and (n.name.startswith(('_try_', '_parse_function_')))]:
+            for n in ast.walk(fn):
+                if isinstance(n, ast.Name) and isinstance(n.ctx, ast.Store) and not n.id.startswith('U_'):
+                    temps.setdefault(re.sub(r'\d+$', '<n>', n.id), fn.name)
+            for p_ in astutil.params_of(fn):
+                if not p_.startswith('U_'):
+                    temps.setdefault(p_, fn.name)
+        for base, where in sorted(temps.items()):
+            rep.add(unit, f'local `{base}` of generated rule code cannot collide with a user-chosen name (starts with an underscore) {tag}', 'syntactic',
+                    base.startswith('_'), detail={'first_seen_in': where})
+        # 2. names in scope where user parameter names are in scope: the parse(...) entry of parameterised classes and __init__
+        for cdef in [n for n in tree.body if isinstance(n, ast.ClassDef) and n.name.startswith('U_')]:
+            for m in [m for m in cdef.body if isinstance(m, ast.FunctionDef)]:
+                user = [p_ for p_ in astutil.params_of(m) if p_.startswith('U_')]
+                gen = [p_ for p_ in astutil.params_of(m) if not p_.startswith('U_')]
+                for g_ in gen:
+                    rep.add(unit, f'parameter `{g_}` of generated {m.name}() stands next to user-chosen parameters and cannot collide (underscore) {tag}',
+                            'syntactic', g_.startswith('_') or not user, detail={'function': f'{cdef.name}.{m.name}', 'user_params': user})
+                for lam in [x for x in ast.walk(m) if isinstance(x, ast.Lambda)]:
+                    inner_user = {t.id for t in ast.walk(lam.body) if isinstance(t, ast.Name) and t.id.startswith('U_')}
+                    rep.add(unit, f'the callable returned by {cdef.name}.{m.name}() does not mention user names under its own parameters {tag}', 'syntactic',
+                            not inner_user, detail={'mentions': sorted(inner_user)})
+        # 3. module scope: names the module defines for itself vs user globals
+        defined = set()
+        for n in tree.body:
+            if isinstance(n, (ast.FunctionDef, ast.ClassDef)):
+                defined.add(n.name)
+            elif isinstance(n, ast.Assign):
+                for t in ast.walk(n):
+                    if isinstance(t, ast.Name) and isinstance(t.ctx, ast.Store):
+                        defined.add(t.id)
+            elif isinstance(n, (ast.Import, ast.ImportFrom)):
+                for a in n.names:
+                    defined.add(a.asname or a.name)
+        for name in sorted({re.sub(r'\d+$', '<n>', d) for d in defined if not d.startswith('U_') and d != 'start'}):
+            rep.add(unit, f'module-level `{name}` cannot collide with a user rule or class (underscore, or documented API) {tag}', 'syntactic',
+                    name.startswith('_') or name in DOCUMENTED_API, detail=None)
+        # 4. builtins that generated code or the run-time library reach by bare name: a user rule/class of that name shadows them
+        used = set()
+        for fn in [n for n in ast.walk(tree) if isinstance(n, (ast.FunctionDef, ast.Lambda))]:
+            local = set(astutil.params_of(fn)) | {t.id for t in ast.walk(fn) if isinstance(t, ast.Name) and isinstance(t.ctx, ast.Store)}
+            for t in ast.walk(fn):
+                if isinstance(t, ast.Name) and isinstance(t.ctx, ast.Load) and t.id in astutil.BUILTINS and t.id not in local and t.id not in defined:
+                    used.add(t.id)
+        for n in tree.body:
+            if not isinstance(n, (ast.FunctionDef, ast.ClassDef)):
+                for t in ast.walk(n):
+                    if isinstance(t, ast.Name) and isinstance(t.ctx, ast.Load) and t.id in astutil.BUILTINS and t.id not in defined:
+                        used.add(t.id)
+        user_code = {'int', 'len'}     # reached from the grammar's own inline python in C20_GRAMMAR
+        for b in sorted(used):
+            rep.add(unit, f'builtin `{b}` is not reached by bare name from generated code (a user rule/class named `{b}` would shadow it) {tag}', 'syntactic',
+                    False if b not in user_code or b == 'len' else True, detail=None)
+
+
+def spelling_independence_obligations(rep, tier, unit='syntactic:generator-ignores-spelling'):
+    """the generator branches on the spelling of a user name only where the language says so: `start` (case-insensitive), the leading
+    underscore rule, the constructor names, `super`"""
+    import os
+    from pyvc import paths
+    root = os.path.join(paths.REPO, 'sourcer')
+    files = [os.path.join(root, 'translator.py')] + [os.path.join(root, 'expressions', f) for f in sorted(os.listdir(os.path.join(root, 'expressions'))) if f.endswith('.py')]
+    allowed = ("name.lower() == 'start'", "startswith('_')", '_is_expression_constructor', "name == 'super'", 'rule_names', 'visited_names', 'is_bound',
+               '_counts', "hasattr(stmt, 'name')", 'not rule.name', 'name is None', 'rule.name is not None', 'node.name and', 'member.name', 'x.name', 'name in which',
+               'name is None else', "stmt.name.lower() == 'start'", 'len(names)', 'if name is None', 'self.name if', 'left.name')
+    for path in files:
+        tree = ast.parse(open(path).read())
+        bad = []
+        for n in ast.walk(tree):
+            test = None
+            if isinstance(n, (ast.If, ast.While, ast.IfExp)):
+                test = n.test
+            if test is None:
+                continue
+            t = ast.unparse(test)
+            if re_search_name(t) and not any(a in t for a in allowed):
+                bad.append(t[:90])
+        rep.add(unit, f'{os.path.relpath(path, paths.REPO)}: no branch on the spelling of a user name beyond the documented ones', 'syntactic', not bad, detail={'tests': bad})
+
+
+def re_search_name(t):
+    import re
+    return re.search(r'\b(name|names)\b', t) is not None and re.search(r'(==|!=|\bin\b|startswith|endswith|lower|upper|isdigit|\[)', t) is not None
